@@ -4,7 +4,7 @@ import itertools, json, os, random
 import vlib
 
 KINDS = {"R": "KRun", "M": "KMod", "S": "KRes", "C": "KClose", "W": "KWait"}
-THEOREMS = ["C09_program_is_expected", "C09_safe", "C09_refuse_after_close", "C09_no_deadlock"]
+THEOREMS = ["C09_program_is_expected", "C09_safe", "C09_refuse_after_close", "C09_no_deadlock", "C09_close_returns_closed"]
 
 def cfg_term(c):
     return "[" + "; ".join(KINDS[k] for k in c) + "]"
@@ -57,7 +57,7 @@ def run_impl(cases):
     def work(ch):
         if not ch:
             return []
-        inp = "".join("%s;%s\n" % (c, " ".join(map(str, t))) for c, t in ch)
+        inp = "".join("%s;%s\n" % (c, t if isinstance(t, str) else " ".join(map(str, t))) for c, t in ch)
         rc, out = vlib.run_tool("impl", ["c09"], input=inp, timeout=1500)
         obs = []
         for line in out.splitlines():
@@ -91,12 +91,12 @@ def compare(cfg, tr, model_obs, o):
                 % (fin, ref, cb, done, panic, o["finished"], o["refused"], o["cb"], o["done"]))
     return None
 
-def stress(n):
-    """free-running (no scheduler) stress of the real code: only panics/violations are meaningful"""
+def stress(n, seed=1):
+    """implementation-driven random schedule exploration through the yield hooks (search only:
+    a blocked goroutine is recognised by a short timeout); only panics/violations are meaningful"""
     cases = []
-    for cfg in ["RC", "RCC", "RRC", "MC", "SC", "RCW"]:
-        cases += [(cfg, [])] * n
-    # an empty trace leaves every thread parked at its first yield; teardown releases them all at once
+    for cfg in ["RC", "RCC", "RRC", "MC", "SC", "RCW", "RCCW", "MCC"]:
+        cases += [(cfg, "explore %d" % (seed * 100000 + i)) for i in range(n)]
     return run_impl(cases)
 
 def check(res):
@@ -199,10 +199,11 @@ def check(res):
         if not found and model_cex:
             res.notes.append("model has violating traces %s but the yield-hook replay did not reproduce them" % model_cex[:3])
     if not found:
-        for (cfg, tr), ob in stress(300 if tier == "quick" else 5000):
+        for (cfg, tr), ob in stress(60 if tier == "quick" else 2000, res.seed):
             if ob.get("panic") or ob.get("violations"):
-                found = dict(input=dict(config=cfg, trace="free-running (no scheduler)"), observed=ob,
-                             expected="no panic / no violation")
+                sched = [int(x) for x in ob.get("case", "").split("]")[-1].split()]
+                found = dict(input=dict(config=cfg, trace=sched, found_by=tr), observed=ob,
+                             expected="no panic / no early Done / no early Close return / callbacks once with nothing inside")
                 break
     what = ("theorems of Props/C09.v (" + ", ".join(THEOREMS) + ")") if not p_ok else "correspondence model-trace replay"
     detail = dict(theorem_or_correspondence=what, extractor=out.strip()[-1500:],
